@@ -334,7 +334,95 @@ theorem patchLoop_spec (mapW width ox oz : Nat) (hwpos : 0 < width) :
             using this)
         simpa [show i + 1 + k = i + (k + 1) by omega] using this
 
+/-- In-range patch: the loop succeeds, pixel `i` lands at `(offX + i % width, offY + i / width)`
+and every cell outside the rectangle keeps its content. -/
+theorem applyPatch_in_range (m : MapState) (W H width height offX offY : Nat) (px : Bytes)
+    (hW : m.width = W) (hlen : m.pixels.length = W * H)
+    (hx : offX + width ≤ W) (hz : offY + height ≤ H) (hpx : px.length = width * height) :
+    ∃ r, applyPatch m width ((offX : Int), (offY : Int)) (some px) = .ok r ∧ r.length = W * H ∧
+      (∀ i, (hi : i < px.length) →
+        r[(offX + i % width) + W * (offY + i / width)]? = some px[i]) ∧
+      (∀ x z, x < W → z < H →
+        ¬ (offX ≤ x ∧ x < offX + width ∧ offY ≤ z ∧ z < offY + height) →
+        r[x + W * z]? = m.pixels[x + W * z]?) := by
+  rcases Nat.eq_zero_or_pos width with h0 | hwpos
+  · subst h0
+    have : px = [] := List.eq_nil_of_length_eq_zero (by simpa using hpx)
+    subst this
+    exact ⟨m.pixels, rfl, hlen, fun i hi => absurd hi (by simp), fun _ _ _ _ _ => rfl⟩
+  · obtain ⟨r, hr, hl, hold, hnew⟩ := patchLoop_spec W width offX offY hwpos px 0 m.pixels (by
+      intro k hk
+      rw [hlen, Nat.zero_add]
+      exact cellIdx_lt W H width height offX offY k hx hz (hpx ▸ hk))
+    refine ⟨r, by simp only [applyPatch, hW]; exact hr, by rw [hl, hlen], ?_, ?_⟩
+    · intro i hi
+      have := hnew i hi (by
+        intro k' h1 h2 e
+        simp only [Nat.zero_add] at e
+        have := cellIdx_inj _ _ _ _ _ _ hwpos hx e
+        omega)
+      simpa [cellIdx] using this
+    · intro x z hxW hzH hout
+      apply hold
+      intro k hk e
+      simp only [Nat.zero_add] at e
+      have hc := cellIdx_coords W width offX offY k hwpos hx
+      rw [e] at hc
+      have h1 : (x + W * z) % W = x := by
+        rw [Nat.add_mul_mod_self_left, Nat.mod_eq_of_lt hxW]
+      have h2 : (x + W * z) / W = z := by
+        rw [Nat.add_mul_div_left _ _ (by omega), Nat.div_eq_of_lt hxW, Nat.zero_add]
+      have hk' : k < width * height := hpx ▸ hk
+      have hm := Nat.mod_lt k hwpos
+      have hd : k / width < height :=
+        (Nat.div_lt_iff_lt_mul hwpos).2 (by rw [Nat.mul_comm]; exact hk')
+      rw [h1, h2] at hc
+      clear h1 h2 e
+      generalize k / width = q at *
+      generalize k % width = rr at *
+      apply hout; omega
+
+theorem replayMaps_append (ps qs : List MapPacket) (s : MapSet) :
+    replayMaps (ps ++ qs) s =
+      (match replayMaps ps s with
+       | .error e => .error e
+       | .ok s' => replayMaps qs s') := by
+  induction ps generalizing s with
+  | nil => rfl
+  | cons p ps ih =>
+    simp only [List.cons_append, replayMaps]
+    cases applyToMapSet p s with
+    | error e => rfl
+    | ok s' => exact ih s'
+
 /-! ### Position -/
+
+theorem and_two_pow_ne_zero (f k : Nat) : f &&& 2 ^ k ≠ 0 ↔ f / 2 ^ k % 2 = 1 := by
+  have h1 : f.testBit k = decide (f / 2 ^ k % 2 = 1) := Nat.testBit_eq_decide_div_mod_eq
+  constructor
+  · intro h
+    by_cases hb : f.testBit k = true
+    · rw [h1] at hb; simpa using hb
+    · exfalso; apply h
+      apply Nat.eq_of_testBit_eq
+      intro i
+      simp only [Nat.testBit_and, Nat.testBit_two_pow, Nat.zero_testBit]
+      by_cases e : k = i
+      · subst e; simp [hb]
+      · simp [e]
+  · intro h hz
+    have : (f &&& 2 ^ k).testBit k = false := by rw [hz]; simp
+    simp only [Nat.testBit_and, Nat.testBit_two_pow] at this
+    rw [h1] at this; simp [h] at this
+
+/-- `relOrAbs` in terms of the `k`-th binary digit of `flags`. -/
+theorem relOrAbs_bit (flags k : Nat) (cur pkt : Rat) :
+    relOrAbs flags (2 ^ k) cur pkt = if flags / 2 ^ k % 2 = 1 then cur + pkt else pkt := by
+  unfold relOrAbs
+  by_cases h : flags / 2 ^ k % 2 = 1
+  · simp only [h, if_true]; rw [if_pos ((and_two_pow_ne_zero flags k).2 h)]
+  · simp only [h, if_false]; rw [if_neg (fun e => h ((and_two_pow_ne_zero flags k).1 e))]
+
 
 theorem mod360_range (a : Rat) : 0 ≤ mod360 a ∧ mod360 a < 360 := by
   unfold mod360
